@@ -26,6 +26,7 @@ AccSmallForms == {"-", "try_borrow", "borrow", "try_borrow_mut", "remove", "or_i
 PrintEdgeAcc == OneTypeInPlay /\ Writable /\ act'.f \in AccSmallForms /\ PrintEdge
 AccOnly == OneTypeInPlay /\ Writable
 TuplesNone == {}
+TuplesPair == [1..2 -> Type]
 TuplesQ == UNION {[1..n -> Type] : n \in 2..3}
 TuplesT == UNION {[1..n -> Type] : n \in 2..4}
 =============================================================================
